@@ -134,3 +134,69 @@ Proof.
   - cbn in He. apply mem_In in He. destruct (release s x pick) as [s' w] eqn:Er. cbn.
     now destruct (release_inv _ _ _ _ _ HI He Er) as (_ & H2 & _).
 Qed.
+
+(* ---------- AcquireMulti: one attempt ---------- *)
+Lemma try_rest_spec : forall fuel i n lockI try acq, n - i <= fuel ->
+  let r := try_rest fuel i n lockI try acq in
+  match snd r with
+  | None => fst r = acq ++ filter (fun j => negb (Nat.eqb j lockI)) (seq i (n - i)) /\ forall j, i <= j < n -> j <> lockI -> try j = true
+  | Some k => i <= k < n /\ k <> lockI /\ try k = false /\ fst r = acq ++ filter (fun j => negb (Nat.eqb j lockI)) (seq i (k - i))
+  end.
+Proof.
+  induction fuel as [|f IH]; intros i n lockI try acq Hf; cbn [try_rest].
+  - assert (n - i = 0) by lia. cbn. rewrite H. cbn. rewrite app_nil_r. split; [reflexivity|intros j Hj; lia].
+  - destruct (Nat.leb_spec n i) as [Hle|Hlt].
+    + cbn. replace (n - i) with 0 by lia. cbn. rewrite app_nil_r. split; [reflexivity|intros j Hj; lia].
+    + replace (n - i) with (S (n - S i)) by lia. cbn [seq filter].
+      destruct (Nat.eqb_spec i lockI) as [->|Hne].
+      * specialize (IH (S lockI) n lockI try acq ltac:(lia)). cbv zeta in IH. destruct (snd (try_rest f (S lockI) n lockI try acq)) as [k|] eqn:Es.
+        -- destruct IH as (A & B & C & D). split; [lia|]. split; [exact B|]. split; [exact C|].
+           rewrite D. replace (k - lockI) with (S (k - S lockI)) by lia. cbn [seq filter]. rewrite Nat.eqb_refl. reflexivity.
+        -- destruct IH as (A & B). cbn [negb]. split; [exact A|]. intros j Hj Hjl. apply B; lia.
+      * destruct (try i) eqn:Et.
+        -- specialize (IH (S i) n lockI try (acq ++ [i]) ltac:(lia)). cbv zeta in IH. destruct (snd (try_rest f (S i) n lockI try (acq ++ [i]))) as [k|] eqn:Es.
+           ++ destruct IH as (A & B & C & D). split; [lia|]. split; [exact B|]. split; [exact C|].
+              rewrite D, <- app_assoc. replace (k - i) with (S (k - S i)) by lia. cbn [seq filter]. destruct (Nat.eqb_spec i lockI); [contradiction|reflexivity].
+           ++ destruct IH as (A & B). cbn [negb]. destruct (Nat.eqb_spec i lockI); [contradiction|]. cbn [negb]. rewrite A, <- app_assoc. split; [reflexivity|].
+              intros j Hj Hjl. destruct (Nat.eq_dec j i) as [->|]; [exact Et|apply B; lia].
+        -- cbn. split; [lia|]. split; [exact Hne|]. split; [exact Et|]. replace (i - i) with 0 by lia. cbn. now rewrite app_nil_r.
+Qed.
+
+Lemma filter_notin (x : nat) l : ~ In x l -> filter (fun j => negb (Nat.eqb j x)) l = l.
+Proof. induction l as [|y l IH]; cbn; intro H; [reflexivity|]. destruct (Nat.eqb_spec y x); [exfalso; apply H; now left|cbn; f_equal; apply IH; intro; apply H; now right]. Qed.
+Lemma perm_extract (x : nat) l : NoDup l -> In x l -> Permutation l (x :: filter (fun j => negb (Nat.eqb j x)) l).
+Proof.
+  induction l as [|y l IH]; intros Hn Hi; [destruct Hi|]. inversion Hn as [|? ? Hy Hn']; subst. cbn.
+  destruct (Nat.eqb_spec y x) as [->|Hne]; cbn.
+  - rewrite filter_notin by exact Hy. reflexivity.
+  - destruct Hi as [E|Hi]; [congruence|]. rewrite perm_swap. constructor. now apply IH.
+Qed.
+
+
+(* a failed attempt gives back exactly the slots it had taken, each once *)
+Lemma backoff_releases_exactly n lockI try acq k : lockI < n -> attempt n lockI try = (acq, Some k) -> Permutation (cleanup lockI k) acq.
+Proof.
+  intros Hl H. unfold attempt in H. pose proof (try_rest_spec n 0 n lockI try [lockI] ltac:(lia)) as S. cbv zeta in S. rewrite H in S. cbn [fst snd] in S.
+  destruct S as (A & B & C & D). rewrite Nat.sub_0_r in D. subst acq. unfold cleanup. cbn [app].
+  destruct (Nat.ltb_spec k lockI) as [Hlt|Hge].
+  - rewrite filter_notin by (rewrite in_seq; lia). cbn [app]. constructor. symmetry. apply Permutation_rev.
+  - cbn [app]. rewrite <- Permutation_rev. apply perm_extract; [apply seq_NoDup|rewrite in_seq; lia].
+Qed.
+(* a successful attempt holds every queue exactly once *)
+Lemma success_holds_all n lockI try acq : lockI < n -> attempt n lockI try = (acq, None) -> Permutation acq (seq 0 n).
+Proof.
+  intros Hl H. unfold attempt in H. pose proof (try_rest_spec n 0 n lockI try [lockI] ltac:(lia)) as S. cbv zeta in S. rewrite H in S. cbn [fst snd] in S.
+  destruct S as (A & _). rewrite Nat.sub_0_r in A. subst acq. cbn [app]. symmetry. apply perm_extract; [apply seq_NoDup|rewrite in_seq; lia].
+Qed.
+(* the queue the next attempt waits on is one that could not be had, never the one just waited on *)
+Lemma backoff_target n lockI try acq k : attempt n lockI try = (acq, Some k) -> k < n /\ k <> lockI /\ try k = false.
+Proof.
+  intro H. unfold attempt in H. pose proof (try_rest_spec n 0 n lockI try [lockI] ltac:(lia)) as S. cbv zeta in S. rewrite H in S. cbn [fst snd] in S. tauto.
+Qed.
+(* the cleanup as written in the seeded change C17-A (the blocking slot is forgotten when the failed index is lower):
+   refuted - the slot of the queue waited on stays taken *)
+Definition cleanup_forgetful (lockI i : nat) : list nat := rev (seq 0 i).
+Lemma forgetful_leaks : exists n lockI try acq k, lockI < n /\ attempt n lockI try = (acq, Some k) /\ ~ Permutation (cleanup_forgetful lockI k) acq.
+Proof.
+  exists 3, 2, (fun j => Nat.eqb j 0), [2; 0], 1. split; [lia|]. split; [reflexivity|]. cbn. intro H. apply Permutation_length in H. discriminate.
+Qed.
